@@ -269,3 +269,135 @@ Proof.
   split; [reflexivity|]. split; [vm_compute; reflexivity|]. split; [vm_compute; reflexivity|].
   apply pmul_wf; [exact bool_laws | apply pone_wf | apply padd_wf].
 Qed.
+
+(* ------------------------------------------------------------------------------------- *)
+(* Polynomial<C> over a GUARDED coefficient semiring, and Polynomial<FiniteField<P>>.
+   (Proofs/SemiringsPolyFF.v.)  The theorems above need coefficient laws that hold on the
+   whole carrier; the finite-field laws hold on residues only.  [pwf_ok okc o p] = p is well
+   formed ([pwf o p]) and every entry of its coefficient array satisfies [okc].  [okc] is an
+   arbitrary predicate (no decidability assumed); closure of [okc] under the coefficient
+   operations is part of [csr_laws okc o], closure of [pwf_ok] under the polynomial
+   operations is part of the conclusion (fields csr_dom_add/mul/zero/one). *)
+From RsddV Require Import Proofs.SemiringsPolyFF.
+
+Theorem C13_poly_guarded_semiring :
+  forall (C : Type) (okc : C -> Prop) (o : sr_ops C),
+  csr_laws okc o -> csr_laws (pwf_ok okc o) (poly_ops o).
+Proof. intros C okc o L. exact (poly_laws_ok okc o L). Qed.
+Print Assumptions C13_poly_guarded_semiring.
+
+(* it is a generalisation: with the trivial guard, pwf_ok is pwf *)
+Theorem C13_poly_guarded_generalises :
+  forall (C : Type) (o : sr_ops C) (p : poly C), pwf_ok everything o p <-> pwf o p.
+Proof. intros C o p. exact (pwf_ok_everything o p). Qed.
+Print Assumptions C13_poly_guarded_generalises.
+
+Theorem C13_poly_guarded_mul_is_truncated_convolution :
+  forall (C : Type) (okc : C -> Prop) (o : sr_ops C), csr_laws okc o ->
+  forall (a b : poly C) (k : nat), pwf_ok okc o a -> pwf_ok okc o b -> k < MAXC ->
+  cf o (pmul o a b) k = sumn o (S k) (fun i => sr_mul o (cf o a i) (cf o b (k - i))) /\
+  plen (pmul o a b) =
+    (if Nat.eqb (plen a) 0 || Nat.eqb (plen b) 0 then 0 else Nat.min (plen a + plen b - 1) MAXC) /\
+  length (coeffs (pmul o a b)) = MAXC.
+Proof. intros C okc o L a b k. exact (pmul_spec_ok okc o L a b k). Qed.
+Print Assumptions C13_poly_guarded_mul_is_truncated_convolution.
+
+(* FiniteField<P> as a guarded semiring: [ff_ops m P] are the operations as coded (option =
+   "or panics"), the guard is [is_res P].  This is C13_main packaged as [csr_laws]. *)
+Theorem C13_ff_semiring : forall (m : mode) (P : N), In P exported_primes ->
+  csr_laws (is_res P) (ff_ops m P).
+Proof. intros m P HP. apply ff_laws. exact (exported_primes_ok P HP). Qed.
+Print Assumptions C13_ff_semiring.
+
+(* Polynomial<FiniteField<P>>, for every exported prime and both build modes: on well-formed
+   polynomials whose coefficients are residues, + and * never panic in any coefficient
+   operation, return well-formed polynomials of residues, and satisfy every
+   commutative-semiring law (equality of all MAX_COEFFS coefficients and len) *)
+Theorem C13_poly_ff_semiring : forall (m : mode) (P : N), In P exported_primes ->
+  csr_laws (pwf_ok (is_res P) (ff_ops m P)) (poly_ops (ff_ops m P)).
+Proof. intros m P HP. apply poly_ff_laws. exact (exported_primes_ok P HP). Qed.
+Check C13_poly_ff_semiring : forall (m : mode) (P : N), In P exported_primes ->
+  csr_laws (pwf_ok (is_res P) (ff_ops m P)) (poly_ops (ff_ops m P)).
+Print Assumptions C13_poly_ff_semiring.
+
+(* the closure part of the above, spelled out *)
+Theorem C13_poly_ff_closed : forall (m : mode) (P : N), In P exported_primes ->
+  forall a b, pwf_ok (is_res P) (ff_ops m P) a -> pwf_ok (is_res P) (ff_ops m P) b ->
+  pwf_ok (is_res P) (ff_ops m P) (padd (ff_ops m P) a b) /\
+  pwf_ok (is_res P) (ff_ops m P) (pmul (ff_ops m P) a b) /\
+  pwf_ok (is_res P) (ff_ops m P) (pzero (ff_ops m P)) /\
+  pwf_ok (is_res P) (ff_ops m P) (pone (ff_ops m P)).
+Proof.
+  intros m P HP a b Wa Wb. pose proof (poly_ff_laws m P (exported_primes_ok P HP)) as L.
+  split; [exact (csr_dom_add _ _ L a b Wa Wb)|]. split; [exact (csr_dom_mul _ _ L a b Wa Wb)|].
+  split; [exact (csr_dom_zero _ _ L) | exact (csr_dom_one _ _ L)].
+Qed.
+Print Assumptions C13_poly_ff_closed.
+
+(* the same for any modulus under the guard of C13_ff_any_modulus (covers the test moduli) *)
+Theorem C13_poly_ff_any_modulus : forall (m : mode) (P : N), (1 < P)%N -> (2 * P <= 2 ^ 128)%N ->
+  csr_laws (is_res P) (ff_ops m P) /\
+  csr_laws (pwf_ok (is_res P) (ff_ops m P)) (poly_ops (ff_ops m P)).
+Proof.
+  intros m P H1 H2. change (2 ^ 128)%N with u128 in H2.
+  split; [apply ff_laws | apply poly_ff_laws]; split; assumption.
+Qed.
+Print Assumptions C13_poly_ff_any_modulus.
+
+(* the instance the correspondence driver runs against Polynomial<FiniteField<11>>:
+   coefficients are plain residues with integer arithmetic modulo P *)
+Theorem C13_poly_zp_semiring : forall (P : N), (1 < P)%N ->
+  csr_laws (pwf_ok (fun a => (a < P)%N) (zp_ops P)) (poly_ops (zp_ops P)).
+Proof. exact poly_zp_laws. Qed.
+Print Assumptions C13_poly_zp_semiring.
+
+(* ... and the two instances are the same thing: the as-coded polynomial operations over
+   FiniteField<P> map residue polynomials exactly as the operations over Z/P do ([pmap Some]
+   re-tags every coefficient r as the non-panicking value Some r), and every residue
+   polynomial of the as-coded type is such an image *)
+Theorem C13_poly_ff_is_zp : forall (m : mode) (P : N), (1 < P)%N -> (2 * P <= 2 ^ 128)%N ->
+  (forall a b, pwf_ok (fun x => (x < P)%N) (zp_ops P) a -> pwf_ok (fun x => (x < P)%N) (zp_ops P) b ->
+     padd (ff_ops m P) (pmap Some a) (pmap Some b) = pmap Some (padd (zp_ops P) a b) /\
+     pmul (ff_ops m P) (pmap Some a) (pmap Some b) = pmap Some (pmul (zp_ops P) a b) /\
+     pzero (ff_ops m P) = pmap Some (pzero (zp_ops P)) /\
+     pone (ff_ops m P) = pmap Some (pone (zp_ops P)) /\
+     pwf_ok (is_res P) (ff_ops m P) (pmap Some a)) /\
+  (forall p, pwf_ok (is_res P) (ff_ops m P) p ->
+     exists q, p = pmap Some q /\ pwf_ok (fun x => (x < P)%N) (zp_ops P) q).
+Proof.
+  intros m P H1 H2. change (2 ^ 128)%N with u128 in H2.
+  split; [apply poly_ff_is_zp | apply poly_ff_from_zp]; split; assumption.
+Qed.
+Print Assumptions C13_poly_ff_is_zp.
+
+(* non-vacuity: a = (P-1) + 2x and b = (P-1) + 3x + (P-5)x^2 over U32_TINY (P = 1000001, not a
+   prime: ring statements only) are well-formed residue polynomials in the checked build;
+   the product wraps modulo P in every coefficient, nothing panics, and the hypotheses of
+   C13_poly_ff_semiring are met (distributivity instance shown) *)
+Example C13_nonvacuous_poly_ff :
+  let P := prime_U32_TINY in
+  let o := ff_ops Checked P in
+  let mk (l : list N) := {| coeffs := map Some l ++ repeat (Some 0%N) (MAXC - length l); plen := length l |} in
+  let a := mk [P - 1; 2]%N in
+  let b := mk [P - 1; 3; P - 5]%N in
+  In P exported_primes /\
+  pwf_ok (is_res P) o a /\ pwf_ok (is_res P) o b /\
+  pmul o a b = mk [1; P - 5; 11; P - 10]%N /\
+  padd o a b = mk [P - 2; 5; P - 5]%N /\
+  pmul o a (padd o b (pone o)) = padd o (pmul o a b) (pmul o a (pone o)).
+Proof.
+  cbv zeta.
+  assert (Wa : ff_poly_okb prime_U32_TINY
+                 {| coeffs := map Some [prime_U32_TINY - 1; 2]%N ++ repeat (Some 0%N) (MAXC - 2);
+                    plen := 2 |} = true) by (vm_compute; reflexivity).
+  assert (Wb : ff_poly_okb prime_U32_TINY
+                 {| coeffs := map Some [prime_U32_TINY - 1; 3; prime_U32_TINY - 5]%N ++ repeat (Some 0%N) (MAXC - 3);
+                    plen := 3 |} = true) by (vm_compute; reflexivity).
+  apply (ff_poly_okb_ok Checked) in Wa; [|vm_compute; reflexivity].
+  apply (ff_poly_okb_ok Checked) in Wb; [|vm_compute; reflexivity].
+  assert (HP : In prime_U32_TINY exported_primes) by (vm_compute; tauto).
+  split; [exact HP|]. split; [exact Wa|]. split; [exact Wb|].
+  split; [vm_compute; reflexivity|]. split; [vm_compute; reflexivity|].
+  apply (csr_distr _ _ (C13_poly_ff_semiring Checked prime_U32_TINY HP)); auto.
+  apply (csr_dom_one _ _ (C13_poly_ff_semiring Checked prime_U32_TINY HP)).
+Qed.
